@@ -422,11 +422,24 @@ Example ex_fronts :
      XL [XN 200; XB (B "INDEX"); XL []; XL []]; XL [XN 96]] /\
   run_history_with front_h1 (fmt_std ex_pcfg) ex_pcfg empty_state [OReq (B "GET") (B "*") 1; OReq (B "GET") (B "a b") 0]
   = [XL [XN 403; XB cors_denied; XL []; XL []]; XL [XN 96]] /\
-  (* a part of the path in the Host header *)
-  run_history_with (front_h1_h (B "localhost/..")) (fmt_std ex_pcfg) ex_pcfg empty_state [OReq (B "GET") (B "/secret.txt") 0]
+  (* a part of the path in the Host header: in process the harness glues it into the URI ... *)
+  run_history_with (front_inproc_h (B "localhost/..")) (fmt_std ex_pcfg) ex_pcfg empty_state [OReq (B "GET") (B "/secret.txt") 0]
   = [XL [XN 400; XB errpage; XL []; XL []]] /\
   uri_of (B "localhost/..") (B "/secret.txt") = Some (B "/../secret.txt", None) /\
-  uri_of (B "localhost?") (B "/../secret.txt") = Some (B "/", Some (B "/../secret.txt")).
+  uri_of (B "localhost?") (B "/../secret.txt") = Some (B "/", Some (B "/../secret.txt")) /\
+  (* ... kvarn's HTTP/1 readers keep a Host header that is not an authority out of the URI (cdbcb3a): the path is the
+     target's; the URI has no authority then, so the site's own Origin is a foreign one; a target that is not in
+     origin form is refused; a Host header that IS an authority is glued as before *)
+  run_history_with (front_h1_h (B "localhost/..")) (fmt_std ex_pcfg) ex_pcfg empty_state
+    [OReq (B "GET") (B "/index.html") 0; OReq (B "GET") (B "/../secret.txt") 0; OReq (B "GET") (B "/a/b.txt") 1; OReq (B "GET") (B "*") 0]
+  = [XL [XN 200; XB (B "INDEX"); XL [XB (B "pf")]; XL [XB (B "host/public/index.html")]]; XL [XN 400; XB errpage; XL []; XL []];
+     XL [XN 403; XB cors_denied; XL []; XL []]; XL [XN 96]] /\
+  uri_of_h1 (B "localhost/..") (B "/secret.txt") = Some (B "/secret.txt", None) /\
+  uri_of_h1 (B "localhost?") (B "/../secret.txt") = Some (B "/../secret.txt", None) /\
+  uri_of_h1 (B "") (B "/x?y") = Some (B "/x", Some (B "y")) /\ uri_of_h1 (B "a b") (B "x") = None /\
+  uri_of_h1 (B "localhost:80") (B "secret.txt") = Some (B "/", None) /\ uri_of_h1 (B "localhost") (B "../secret.txt") = Some (B "/secret.txt", None) /\
+  host_is_authority (B "[::1]") = true /\ host_is_authority (B "[::1") = false /\ host_is_authority (B "localhost:80:80") = false /\
+  host_is_authority (B "u@localhost") = true /\ host_is_authority (B "localhost#") = false.
 Proof. repeat split; vm_compute; reflexivity. Qed.
 Example ex_history_hyps :
   benign_host (pc_host ex_pcfg) /\ wf_pos (fixture_root ex_files) /\
